@@ -37,6 +37,8 @@ Pool == <<
   D("XAB",   "pat", <<Lit(1), Lit(65)>>, ""),                                           \* /\x01A/
   D("SLS",   "pat", <<Lit(59), Set(<<LowR>>), Lit(59)>>, ""),                   \* /;[a-z];/   same text as the literal ";x;"
   D("SXS",   "inl", Lits(<<59, 120, 59>>), ""),                                 \* ";x;"
+  D("BSL2",  "str", Lits(<<92, 92>>), ""),                                     \* "\\\\"   two escaped backslashes in a row
+  D("BSQ",   "inl", Lits(<<92, 34>>), ""),                                     \* "\\\""   an escaped backslash, then an escaped quote
   D("QAQ",   "str", Lits(<<34, 97, 34>>), ""),                                  \* "\"a\""   two escapes in one literal
   D("SLASHQ","str", Lits(<<47, 34, 92>>), ""),                                 \* "/\"\\"  three characters / " \
   D("AB",    "str", Lits(<<97, 98>>), ""),                                      \* "ab"
